@@ -221,6 +221,45 @@ def cer_case(cfg: int, sp: int, outbound: bool) -> bool:
     return hx.check(inputs, obs, ([] if outbound else [2001], B.PEER_READY, True, True), "a configured peer is known whatever the letter case of its name in the URI and in Origin-Host")
 
 
+def peer_added_late(cfg: int, sp: int, first: int, outbound: bool) -> bool:
+    """
+    pre: 0 <= cfg <= 2 and 0 <= sp <= 2 and 0 <= first <= 3
+    post: _
+    """
+    hx.begin()
+    # a peer configured at run time (add_peer on a node that has already handled capabilities exchanges - of a stranger, of
+    # another configured peer in its exact or in another spelling) is known from then on, whatever the letter case
+    cfg, sp, first = hx.concretize_range(cfg, 0, 3), hx.concretize_range(sp, 0, 3), hx.concretize_range(first, 0, 4)
+    outbound = bool(hx.concretize(outbound))
+    inputs = (cfg, sp, first, outbound)
+    try:
+        with hx.untraced():
+            b = B.Bench(n_peers=1)
+            n, app = b.node, b.apps[0]
+            if first:
+                c0, s0 = b.accept()
+                who = [None, "stranger.local.realm", B.PEER_HOSTS[0], B.PEER_HOSTS[0].upper()][first]
+                b.inject(c0, B.cer(who, hbh=1, e2e=2))
+                drain(c0)
+            late = "gw2.local.realm"
+            p2 = n.add_peer("aaa://" + SPELL[cfg](late), B.REALM, ip_addresses=["10.0.1.9"], is_persistent=False)
+            n.add_application(B.RecApp(4, is_auth_application=True), [p2])
+            name = SPELL[sp](late)
+            if outbound:
+                c = b.dial(p2, "ok")
+                drain(c)
+                b.inject(c, B.cea(name, hbh=11, e2e=12))
+                out = []
+            else:
+                c, s = b.accept("10.0.1.9")
+                b.inject(c, B.cer(name, hbh=11, e2e=12))
+                out = [x[5] for x in B.summarize(drain(c))]
+            obs = (out, c.state, p2.connection is c)
+    except Exception as e:
+        return hx.fail(inputs, "raised " + type(e).__name__ + str(e)[:80])
+    return hx.check(inputs, obs, ([] if outbound else [2001], B.PEER_READY, True), "a peer added at run time is known to the capabilities exchange, whatever happened before and whatever the letter case")
+
+
 # ----------------------------------------------------------------------------- 3. outbound: CER first, ready only on a 2001 CEA
 def cea_outcome(result: int) -> bool:
     """
@@ -393,6 +432,7 @@ def specs(tier, seed, carve):
            dict(id="cea_outcome", fn="cea_outcome", params={}, timeout=120, bound="all 2^32 CEA result codes"),
            dict(id="ce_timeout", fn="ce_timeout", params={}, timeout=200, bound="both directions, elapsed 0..200 s, node timeout 1..60, per-peer timeout 0..60 (0 = unset)"),
            dict(id="cea_reject_then_traffic", fn="cea_reject_then_traffic", params={}, timeout=400, bound="outbound connection, CEA with any result != 2001 followed at once by two messages of {DWR, application request, DPR, application answer}, in the same read or the next"),
+           dict(id="peer_added_late", fn="peer_added_late", params={}, timeout=300, bound="a peer added with add_peer after the node has handled 0..1 earlier capabilities exchanges (stranger / configured peer in its exact or another spelling); its URI and its Origin-Host (CER inbound, CEA outbound) in lower / Capitalised / UPPER case"),
            dict(id="cer_case", fn="cer_case", params={}, timeout=300, bound="peer configured in lower / Capitalised / UPPER case x Origin-Host of its CER (inbound) or CEA (outbound) in each of the three spellings"),
            dict(id="ce_timeout_traffic", fn="ce_timeout_traffic", params={}, timeout=600, bound="both directions through the real I/O loop; TCP handshake lasting 0..60 s; ignored traffic (a whole DWR / 10 bytes of one / none) arriving at any second before the check; elapsed 0..120 s; timeout 1..60")]
     import random
